@@ -349,3 +349,102 @@ theorem ms_src (a0 a1 : Bool) (vol : Nat → Nat → Int) :
     all_goals simp_all
 
 end Pams.Src
+
+/-! ### market maker: the base price from the best quotes of the accessible markets -/
+namespace Pams.Src
+open Pams Pams.Py Pams.Agents
+variable {K : Type} [LinearOrder K] [NumOpsC K]
+
+/-- which quotes exist: market `k` (address 5 + k) has a best bid (num atom 20 + k) / a best ask (30 + k) or none -/
+structure QuoteShape where
+  bid : Nat → Bool
+  ask : Nat → Bool
+
+def bpExt (q : QuoteShape) : Ext := fun st recv fn args =>
+  match recv, fn, args with
+  | .ref 1, "is_market_accessible", [.int (.lit k)] => some (.bool (.atom (1 + k.toNat)), st)
+  | .ref m, "get_best_buy_price", [] =>
+    if m = 5 ∨ m = 6 then some (if q.bid (m - 5) then .num (.atom (20 + (m - 5))) else .none, st) else none
+  | .ref m, "get_best_sell_price", [] =>
+    if m = 5 ∨ m = 6 then some (if q.ask (m - 5) then .num (.atom (30 + (m - 5))) else .none, st) else none
+  | _, _, _ => none
+
+def bpSt : St :=
+  { heap := fun a => if a = 1 then mmAgent else if a = 5 then (fun f => match f with
+      | "market_id" => some (.int (.lit 0)) | _ => none) else if a = 6 then (fun f => match f with
+      | "market_id" => some (.int (.lit 1)) | _ => none) else fun _ => none, calls := [] }
+
+def bpEnv (q : QuoteShape) : Env :=
+  { prog := PamsGen.Code.prog.filter (fun e => e.1 == "MarketMakerAgent.get_base_price"),
+    globals := agentGlobals, ext := bpExt q, mro := PamsGen.Code.mroOf }
+
+def bpPaths (q : QuoteShape) := obsPathsPG obs (bpEnv q) FUEL "MarketMakerAgent.get_base_price" [.ref 1, .list [.ref 5, .ref 6]] bpSt
+
+/-- valuation: accessibility of the two markets, their best bids `b` and asks `s`, and the value `inf` of `float("inf")` -/
+def rhoBp (a0 a1 : Bool) (b0 b1 s0 s1 inf : K) : Rho K :=
+  { i := fun _ => 0
+    n := fun k => if k = 20 then b0 else if k = 21 then b1 else if k = 30 then s0 else if k = 31 then s1 else inf
+    b := fun k => if k = 1 then a0 else a1 }
+
+def qAll : QuoteShape := { bid := fun _ => true, ask := fun _ => true }
+/-- market 1 has no bid, market 0 no ask -/
+def qCross : QuoteShape := { bid := fun k => k = 0, ask := fun k => k = 1 }
+def qNoBid : QuoteShape := { bid := fun _ => false, ask := fun _ => true }
+
+theorem bpP_all : bpPaths qAll = evalnf% (bpPaths qAll) := by kernel_rfl
+theorem bpP_cross : bpPaths qCross = evalnf% (bpPaths qCross) := by kernel_rfl
+theorem bpP_nobid : bpPaths qNoBid = evalnf% (bpPaths qNoBid) := by kernel_rfl
+
+/-- the running maximum / minimum over the accessible markets that have the quote (ties keep the earlier one) -/
+def pickMax (cur : Option K) (acc : Bool) (q : Option K) : Option K :=
+  match acc, q, cur with
+  | true, some x, none => some x
+  | true, some x, some c => some (if c < x then x else c)
+  | _, _, c => c
+def pickMin (cur : Option K) (acc : Bool) (q : Option K) : Option K :=
+  match acc, q, cur with
+  | true, some x, none => some x
+  | true, some x, some c => some (if x < c then x else c)
+  | _, _, c => c
+
+/-- the base price: the mean of the highest accessible bid and the lowest accessible ask, or `None` if either
+is missing -/
+def baseObs (mb ms : Option K) : CObs K :=
+  match mb, ms with
+  | some b, some s => .num ((b + s) / PyNum.ofInt 2)
+  | _, _ => .none
+
+macro "bp_finish" : tactic =>
+  `(tactic| (all_goals intro h
+             all_goals simp [BTerm.eval, ITerm.eval, NTerm.eval, rhoBp, Obs.eval] at h ⊢
+             all_goals (revert h; simp only [and_imp]; intros)
+             all_goals try (simp_all [baseObs, pickMax, pickMin, lt_false_of_le]; done)
+             all_goals (exfalso; grind)))
+
+set_option maxHeartbeats 2000000 in
+/-- **`MarketMakerAgent.get_base_price`**: the mean of the highest best bid and the lowest best ask over the
+*accessible* markets that have one; `None` if no accessible market has a bid, or none has an ask.  `inf` is the
+value of `float("inf")`: every quote lies strictly between `-inf` and `inf`.  (`2.0` is not `0.0`.) -/
+theorem bp_src (a0 a1 : Bool) (b0 b1 s0 s1 inf : K)
+    (h1 : -inf < b0) (h2 : -inf < b1) (h3 : s0 < inf) (h4 : s1 < inf) (h5 : (NumOpsC.ofInt 2 : K) ≠ NumOpsC.ofInt 0) :
+    resultG obs (rhoBp a0 a1 b0 b1 s0 s1 inf) (bpEnv qAll) FUEL "MarketMakerAgent.get_base_price" [.ref 1, .list [.ref 5, .ref 6]] bpSt
+      = baseObs (pickMax (pickMax none a0 (some b0)) a1 (some b1)) (pickMin (pickMin none a0 (some s0)) a1 (some s1)) ∧
+    resultG obs (rhoBp a0 a1 b0 b1 s0 s1 inf) (bpEnv qCross) FUEL "MarketMakerAgent.get_base_price" [.ref 1, .list [.ref 5, .ref 6]] bpSt
+      = baseObs (pickMax (pickMax none a0 (some b0)) a1 none) (pickMin (pickMin none a0 none) a1 (some s1)) ∧
+    resultG obs (rhoBp a0 a1 b0 b1 s0 s1 inf) (bpEnv qNoBid) FUEL "MarketMakerAgent.get_base_price" [.ref 1, .list [.ref 5, .ref 6]] bpSt
+      = .none := by
+  refine ⟨?_, ?_, ?_⟩
+  · apply resultG_eq_of_pathsP (by intro x; simp)
+    show ∀ p ∈ bpPaths qAll, _
+    py_paths bpP_all
+    bp_finish
+  · apply resultG_eq_of_pathsP (by intro x; simp)
+    show ∀ p ∈ bpPaths qCross, _
+    py_paths bpP_cross
+    bp_finish
+  · apply resultG_eq_of_pathsP (by intro x; simp)
+    show ∀ p ∈ bpPaths qNoBid, _
+    py_paths bpP_nobid
+    bp_finish
+
+end Pams.Src
